@@ -431,21 +431,53 @@ def rule_cmp1(ctx: Ctx) -> RuleResult:
     rr.instances += 1
     ok2 = False
     why2 = "no loop over combinations(<all models>, 2) guarded by the comparator"
+    all_models = ("self.models", f"self.{_registry_attr(ctx)}.values()")
+
+    def _is_all_pairs(e) -> bool:
+        return isinstance(e, ast.Call) and norm(e.func).endswith("combinations") and len(e.args) == 2 and \
+            norm(e.args[1]) == "2" and norm(e.args[0]) in all_models
+
+    def _is_cmp_call(fi, test, tv) -> bool:
+        return isinstance(test, ast.Call) and f in [t for t in ctx.cg.resolve_call(fi, fi.module, test) if isinstance(t, FuncInfo)] \
+            and [norm(a_) for a_ in test.args] in ([tv[0], tv[1]], [tv[1], tv[0]])
+
+    def _filtered_pairs(fi, e, depth=0) -> bool:
+        """`e` yields exactly the pairs of all models the comparator accepts."""
+        if isinstance(e, (ast.ListComp, ast.GeneratorExp)) and len(e.generators) == 1:
+            g0 = e.generators[0]
+            tv_ = [x.id for x in g0.target.elts] if isinstance(g0.target, ast.Tuple) and all(
+                isinstance(x, ast.Name) for x in g0.target.elts) else []
+            return _is_all_pairs(g0.iter) and len(tv_) == 2 and len(g0.ifs) == 1 and _is_cmp_call(fi, g0.ifs[0], tv_) and \
+                isinstance(e.elt, ast.Tuple) and sorted(norm(x) for x in e.elt.elts) == sorted(tv_)
+        if isinstance(e, ast.Call) and norm(e.func) in ("list", "tuple", "iter") and e.args:
+            return _filtered_pairs(fi, e.args[0], depth)
+        if isinstance(e, ast.Call) and depth < 2:
+            for t in ctx.cg.resolve_call(fi, fi.module, e):
+                if isinstance(t, FuncInfo) and t.cls is mm.cls:
+                    rets = [r_ for r_ in walk_no_nested(t.node) if isinstance(r_, ast.Return) and r_.value is not None]
+                    if len(rets) == 1 and _filtered_pairs(t, rets[0].value, depth + 1):
+                        return True
+        return False
+
     for lp in walk_no_nested(mm.node):
-        if isinstance(lp, ast.For) and isinstance(lp.iter, ast.Call) and norm(lp.iter.func).endswith("combinations") \
-                and len(lp.iter.args) == 2 and norm(lp.iter.args[1]) == "2" and norm(lp.iter.args[0]) in (
-                "self.models", f"self.{_registry_attr(ctx)}.values()"):
-            tv = [e.id for e in lp.target.elts] if isinstance(lp.target, ast.Tuple) else []
-            if len(tv) == 2 and len(lp.body) == 1 and isinstance(lp.body[0], ast.If) and not lp.body[0].orelse:
-                test = lp.body[0].test
-                if isinstance(test, ast.Call) and f in [t for t in ctx.cg.resolve_call(mm, mm.module, test)
-                                                         if isinstance(t, FuncInfo)] and \
-                        [norm(a) for a in test.args] in ([tv[0], tv[1]], [tv[1], tv[0]]):
-                    adds = [norm(s) for s in lp.body[0].body]
-                    a, b = tv
-                    sym = any(f"[{a}].add({b})" in s for s in adds) and any(f"[{b}].add({a})" in s for s in adds)
-                    ok2 = sym
-                    why2 = "pair not recorded in both directions" if not sym else ""
+        if not isinstance(lp, ast.For):
+            continue
+        tv = [e.id for e in lp.target.elts] if isinstance(lp.target, ast.Tuple) and all(
+            isinstance(e, ast.Name) for e in lp.target.elts) else []
+        if len(tv) != 2:
+            continue
+        body = None
+        if _is_all_pairs(lp.iter) and len(lp.body) == 1 and isinstance(lp.body[0], ast.If) and not lp.body[0].orelse and \
+                _is_cmp_call(mm, lp.body[0].test, tv):
+            body = lp.body[0].body
+        elif _filtered_pairs(mm, lp.iter):
+            body = lp.body
+        if body is not None:
+            adds = [norm(s_) for s_ in body]
+            a, b = tv
+            sym = any(f"[{a}].add({b})" in s_ for s_ in adds) and any(f"[{b}].add({a})" in s_ for s_ in adds)
+            ok2 = sym
+            why2 = "pair not recorded in both directions" if not sym else ""
     rr.ob(mm.relpath, mm.qualname, "for a, b in combinations(self.models, 2)", "every unordered pair of registered "
           "models is tested once and a match is recorded for both members", DISCHARGED if ok2 else VIOLATED,
           "all pairs, symmetric recording" if ok2 else why2, mm.node.lineno)
@@ -583,4 +615,83 @@ def rule_cmp2(ctx: Ctx) -> RuleResult:
             rr.ob(f.relpath, init[0].qualname, norm(asg[0]) if asg else f"self.{attr}", "the threshold is the "
                   "constructor argument as given", DISCHARGED if ok2 else VIOLATED,
                   "stored unchanged" if ok2 else "threshold is transformed or not stored", init[0].node.lineno)
+    return rr
+
+
+def rule_reg5(ctx: Ctx) -> RuleResult:
+    """Similarity is evaluated once, on the key sets the models had when merging started."""
+    rr = RuleResult("REG-5", "models are compared on their original key sets: one comparison pass, before anything is merged", floor=2)
+    prog = ctx.prog
+    c = prog.cls(*REG)
+    mm = prog.lookup_method(c, "merge_models")
+    mg = prog.lookup_method(c, "_merge")
+    if not mm or not mg:
+        raise AnalysisError("REG-5: merge_models / _merge vanished")
+    f = mm[0]
+    mod = f.module
+    # (a) no re-entry: merge_models is not reachable from its own body
+    rr.instances += 1
+    seen: Set[str] = set()
+    stack = [(f, None)]
+    reentry = None
+    first = True
+    while stack and reentry is None:
+        g, via = stack.pop()
+        if g.key in seen:
+            continue
+        if not first:
+            seen.add(g.key)
+        for n in walk_no_nested(g.node):
+            if isinstance(n, ast.Call):
+                for t in ctx.cg.resolve_call(g, g.module, n):
+                    if isinstance(t, FuncInfo) and t.relpath == f.relpath:
+                        if t is f:
+                            reentry = (g, n)
+                        elif t.key not in seen:
+                            stack.append((t, n))
+        first = False
+    st = ("two models end up in one class only through a chain of pairs similar on their ORIGINAL key sets; a merged model "
+          "(union of its members' keys) is never compared again with the models that are left")
+    if reentry:
+        g, n = reentry
+        rr.ob(g.relpath, g.qualname, norm(n)[:80], st, VIOLATED,
+              f"`{norm(n)[:60]}` runs the merge again on the result: merged models take part in a second round of "
+              f"comparisons with their enlarged key sets, and the reported replacements name models that no longer exist",
+              n.lineno)
+    else:
+        rr.ob(f.relpath, f.qualname, "merge_models", st, DISCHARGED, "merge_models is not re-entered from its own call tree",
+              f.node.lineno)
+    # (b) inside one run: no comparator call is reachable after a merge
+    rr.instances += 1
+    def _is_cmp(n):
+        if not (isinstance(n, ast.Call) and isinstance(n.func, ast.Attribute)):
+            return False
+        if "cmp" in n.func.attr.lower():
+            return True
+        # a helper method of the registry that itself calls the comparator
+        for t in ctx.cg.resolve_call(f, mod, n):
+            if isinstance(t, FuncInfo) and t.cls is c and t is not f and t is not mg[0] and any(
+                    isinstance(x, ast.Call) and isinstance(x.func, ast.Attribute) and "cmp" in x.func.attr.lower()
+                    for x in walk_no_nested(t.node)):
+                return True
+        return False
+    cmp_calls = [n for n in walk_no_nested(f.node) if _is_cmp(n)]
+    merge_calls = [n for n in walk_no_nested(f.node) if isinstance(n, ast.Call) and mg[0] in
+                   [t for t in ctx.cg.resolve_call(f, mod, n) if isinstance(t, FuncInfo)]]
+    if not cmp_calls or not merge_calls:
+        raise AnalysisError(f"REG-5: comparator calls ({len(cmp_calls)}) or merge calls ({len(merge_calls)}) not found in merge_models")
+    cfg = ctx.cfg(f)
+    bad = None
+    for m in merge_calls:
+        reach = cfg.reachable_from(cfg.node_containing(m, mod.parents), labels_excluded=("exc",))
+        for cc in cmp_calls:
+            if cfg.node_containing(cc, mod.parents) in reach:
+                bad = (m, cc)
+    if bad:
+        rr.ob(f.relpath, f.qualname, norm(bad[1])[:80], st, VIOLATED,
+              f"`{norm(bad[1])[:50]}` can run after `{norm(bad[0])[:40]}`: models are compared after some were already merged",
+              bad[1].lineno)
+    else:
+        rr.ob(f.relpath, f.qualname, norm(cmp_calls[0])[:80], st, DISCHARGED,
+              "all comparisons happen before the first merge", cmp_calls[0].lineno)
     return rr
